@@ -82,7 +82,16 @@ class Client:
     """one raw connection to the bus"""
     def __init__(self, daemon, uid=None, fd_passing=False, begin=True, auth=True):
         self.sock = socket.socket(socket.AF_UNIX, socket.SOCK_STREAM)
-        self.sock.connect(daemon.path)
+        t0 = time.time()
+        while True:
+            try:
+                self.sock.connect(daemon.path)
+                break
+            except ConnectionRefusedError:
+                # the socket file appears at bind(), a moment before listen()
+                if time.time() - t0 > 5 or not daemon.alive():
+                    raise
+                time.sleep(0.005)
         self.buf = bytearray()
         self.fds = []
         self.serial = 0
